@@ -55,10 +55,10 @@ man = {
     "version": 1,
     "setup_cmd": "./check setup",
     "hooks": {
-        "guard": "none",
-        "enable": "no source hooks: every seam the properties depend on (generator passed to step/update, set_time, JSON snapshots, Result from create_order, trading switch) already exists in the shipped API; checks link /repo's crates by path",
+        "guard": "cargo feature `verif` of the crate bourse-de (crates/step_sim), off by default",
+        "enable": "the simulator depends on bourse-de with features = [\"verif\"] (sim/Cargo.toml); the feature only adds the read-only accessors Env::verif_queued / MarketEnv::verif_queued (queued instructions). Every other seam (generator passed to step/update, set_time, JSON snapshots, Result from create_order, trading switch) already exists in the shipped API; checks link /repo's crates by path",
         "baseline_off_cmd": "cd /repo && cargo test --workspace --no-fail-fast --offline",
-        "source_commits": [],
+        "source_commits": ["8262581f2177e50de660dbccda7e88ba2d220986"],
         "add_only": True,
     },
     "engines": [{"name": "bourse-dst", "path": "sim", "serves_properties": [c['property_id'] for c in checks],
